@@ -39,6 +39,17 @@ func (vc *VC) prelude() []string {
 
 // verifyFunction generates all obligations for fn as a root (contract, frame, sites, events).
 func (e *Engine) verifyFunction(fn *ssa.Function, fc *FuncContract, ifaceNames []string) (vc *VC, rep *FuncReport) {
+	// Every root starts from fresh id tables (types, strings, functions, globals): the text of a function's VC,
+	// and with it the solvers' behaviour on it, is the same whichever property or command it is generated for.
+	e.resetIDs()
+	defer func() {
+		if vc != nil {
+			// everything that reads the id tables is fixed now, while they are this root's
+			vc.finalize()
+			vc.implFacts = vc.implementsFacts()
+			vc.implFactsDone = true
+		}
+	}()
 	vc = e.newVC(fn)
 	vc.fc = fc
 	e.curRoot, e.curScope = fn, []*ssa.Function{fn}
@@ -292,6 +303,9 @@ func (e *Engine) implementations(pkgPath, ifaceName, method string) []*ssa.Funct
 
 // implementsFacts: ground facts for the uninterpreted `implements` predicate.
 func (vc *VC) implementsFacts() []string {
+	if vc.implFactsDone {
+		return vc.implFacts
+	}
 	var out []string
 	if !vc.declared["implements"] {
 		return nil
